@@ -844,7 +844,9 @@ loop:
 func (s *ResettableKeystore) Close() (err error) {
 	select {
 	case <-s.close:
-		// Already closed
+		// A Close call is under way or over: like it, return only once the
+		// worker has exited.
+		<-s.done
 	default:
 		close(s.close)
 		<-s.done // Wait for worker to exit (no new buffer appends after this).
